@@ -13,10 +13,14 @@ CLAIMS = {
          "Coq proof: refinement to the frame schema (checksum span = frame) + checksum theorems; translator + correspondence tie", "DESIGN.md §6 C05"),
  "C06": ("Theorems C06_append_only_context_free / C06_failure_context_free / C06_sequences_concatenate for all 170 recognised types, all well-typed messages, all buffer contents: Encode appends exactly the bytes it appends to an empty buffer, alters nothing before them, fails identically on any buffer; sequences concatenate (induction over the message list). Consumed bytes are outside the modelled buffer (no primitive can reach them); the correspondence check covers partly consumed buffers. Repeatability of re-encoding is covered by the direct oracle (theorem: work in progress).",
          "Coq proof: encode refinement theorem + induction over operation sequences; translator + correspondence tie", "DESIGN.md §6 C06"),
+ "C13": ("Theorems for all widths N >= 0, all pad runes, both sides, all byte strings: write emits exactly N bytes (cut to the first N / verbatim / padded with byte(pad) on the pad side); read consumes exactly N bytes and strips only a maximal run of the pad byte on the pad side (decomposition theorem: field = result ++ pad run, result does not end/begin with the pad); round-trip for canonical text and re-encode for every N-byte field. The model functions write_fixed/read_fixed and their list forms are tied to WriteFixedString*/ReadFixedString* by correspondence over all 256 pad bytes x both sides x widths 0..16 and a direct oracle against an independent specification.",
+         "Coq proof (lists, induction) over the hand-written helper model + correspondence check", "DESIGN.md §6 C13"),
  "C14": ("Theorems (all byte strings): SSE_BIN and SZSE_BIN = byte sum mod 256 in 0..255 (the int32 SZSE result is never negative); CRC-16/CRC-32 catalogue check values; the four Calc models are tied to checksum.go by differential correspondence (8k+ inputs per run incl. 64 KiB and high-bit inputs) and a direct oracle against independent table-driven references, which also checks that Calc neither consumes nor modifies its buffer.",
          "Coq proof (induction over the byte list) + correspondence check", "DESIGN.md §6 C14"),
  "C15": ("Theorems C15_receiver_independent / C15_same_as_fresh for all 170 recognised types, all byte strings, all receivers of the right shape (any scalars, text, lists, bodies; nested pointers nil or not): Decode's outcome is a function of the bytes only. From the decode refinement theorem (dec_refines: the translated Decode statements equal a receiver-free schema parser), re-instantiated on /repo every run.",
          "Coq proof: decode refinement theorem (receiver-free specification); translator + correspondence tie", "DESIGN.md §6 C15"),
+ "C18": ("Theorems: for every prefixed-text and list primitive, every prefix type and every length: a length >= 2^(8*prefix width) makes the writer return an error (w_prim_overflow_refused), success implies the length fits and the prefix written is the true length (w_prim_ok_fits), an over-long element of a text list is refused; for every recognised message type and every well-typed value on every buffer: Encode succeeding implies every prefixed field fits (C18_success_means_every_length_fits), a message with an over-long field never encodes successfully, a frame encodes only if its body does; H_propagate: no call site drops a fallible writer's error. Helper model tied by correspondence at lengths 255/256/65535/65536.",
+         "Coq proof over the helper model and the schema semantics + encode refinement; translator + correspondence tie", "DESIGN.md §6 C18"),
 }
 def entry(pid, text, tech, ref):
     return {"property_id": pid, "quick_cmd": f"bin/verif check {pid} --tier quick", "thorough_cmd": f"bin/verif check {pid} --tier thorough",
